@@ -89,6 +89,11 @@ func (lx *Lexer) line() int {
 	}
 	raw := lx.buf[:i+1]
 	s := string(lx.buf[:i])
+	// a station may terminate lines with CR LF: the LF is then the first byte of the next line and is ignored
+	s = strings.TrimLeft(s, "\n")
+	if s == "" {
+		return i + 1 // empty line
+	}
 	u := Unit{F: map[string]interface{}{"text": s}, Raw: append([]byte(nil), raw...)}
 	if lx.errored || strings.HasPrefix(s, "***") {
 		// error reporting is not defined by the protocol: a line prefixed "***" and whatever free text follows it
@@ -178,9 +183,10 @@ func (lx *Lexer) line() int {
 		u.F["size"], _ = strconv.Atoi(m[4])
 		u.F["csize"], _ = strconv.Atoi(m[5])
 		u.F["offset"], _ = strconv.Atoi(m[6])
-		for _, c := range raw {
+		for _, c := range []byte(s) {
 			lx.blockSum += int(c)
 		}
+		lx.blockSum += '\r'
 		lx.blockCount++
 		u.F["index"] = lx.blockCount
 	case strings.HasPrefix(s, "F>"):
@@ -214,8 +220,8 @@ func (lx *Lexer) line() int {
 				ans, offs = append(ans, "-"), append(offs, 0)
 			case '=', 'L', 'l':
 				ans, offs = append(ans, "="), append(offs, 0)
-			case 'H', 'h':
-				ans, offs = append(ans, "h"), append(offs, 0)
+			case 'H', 'h': // "held": pinned by the repository's own test as a deferral; the tolerant reading
+				ans, offs = append(ans, "="), append(offs, 0)
 			case 'E', 'e':
 				ans, offs = append(ans, "e"), append(offs, 0)
 			case '!', 'A', 'a':
